@@ -367,6 +367,16 @@ class Ctx(object):
                     (w.field[1] in stat_structs and fty in stat_structs)
                 if counter_write or struct_write:
                     out.setdefault(b.path, []).append((w.bb, w.line))
+            # a function that only hands the work to such a function (`recompute_stats` -> `tally(&map, &mut stats)`)
+            # recomputes as well: its call sites of recomputing functions are its recompute points
+            for _ in range(3):
+                for b in prog.bodies.values():
+                    if b.path in fam or b.path in out or b.is_closure:
+                        continue
+                    pts = [(s_.bb, s_.line) for s_ in b.calls() if prog.local_target(s_) is not None
+                           and prog.local_target(s_).path in out and not b.reachable]
+                    if pts:
+                        out[b.path] = pts
             self._recompute_points = out
         return self._recompute_points
 
@@ -527,6 +537,38 @@ class Ctx(object):
                 seen.add(k)
                 res.append(c)
         return res
+
+    def concrete_occurrences(self, name, stop=()):
+        """Every occurrence of semantic event `name` as the actual effect site, seen in a body where the event's class
+        is concrete: [(body or flat view, site in it, key body)].  An effect whose path is a parameter of a private
+        helper (`unlink_if_unneeded(.., path)`) is looked at in the flat view of the caller that supplies the path, so
+        that the guards around the call and the syscall itself are judged in one control-flow graph."""
+        out = []
+        seen = set()
+        for chain in self.sem_chains(name):
+            root = chain[0].body
+            inner = chain[-1]
+            if len(chain) == 1:
+                k = (root.path, inner.key())
+                if k not in seen:
+                    seen.add(k)
+                    out.append((root, inner, root))
+                continue
+            V = self.flat(root, stop=stop)
+            occ = [fs for fs in self.flat_sites_of(V, inner) if fs.kind == "call" and not V.blocks[fs.bb].get("cleanup")]
+            if occ:
+                for fs in occ:
+                    k = (root.path, fs.key(), fs.bb)
+                    if k not in seen:
+                        seen.add(k)
+                        out.append((V, fs, root))
+            else:
+                # the helper is not inlined (an API function of its own): the call that supplies the path stands for it
+                k = (root.path, chain[0].key())
+                if k not in seen:
+                    seen.add(k)
+                    out.append((root, chain[0], root))
+        return out
 
     def deepest_frame(self, chain, pred):
         """The innermost frame of the chain whose body satisfies pred; the outermost frame if none does."""
